@@ -22,11 +22,15 @@ CONSTANTS
   FdKinds = {"none"}
   TrustFd = FALSE
   CommitAfterRead = TRUE
+  Bases = {0, 1}
+  TellOffsets = TRUE
+  FreshLists = TRUE
 SPECIFICATION Spec
 INVARIANT TypeOK
 INVARIANT IndexExact
 INVARIANT Refines
 PROPERTY SameResult
+PROPERTY NamesExact
 PROPERTY Isolation
 PROPERTY RExact
 PROPERTY RLinesNL
